@@ -53,6 +53,8 @@ func runC16(c *report.Ctx) {
 	ruleStakingPeriodFromRequest(c)
 	ruleIndexedResultLengthChecked(c, []string{pkgAPI, pkgWallet, pkgTxmgr, pkgKeystore, pkgUtils}, 3) // the class an extractor reports does not tell how many addresses it parsed
 	ruleSequenceSiblings(c)                                                                            // the maturity read off a staking script is what the spending input carries
+	ruleClassBits(c)              // the class a credit is stored with is the class its script has: every writer of a credit value sets the class bits the reader decodes
+	ruleLayout(c, []string{"credit-value"}, 5) // … and sibling writers of the credit value (unspent, pending, demoted by a rollback) produce one layout
 	ruleDecoderTotality(c)                                                                             // the stored reading of an output's class (credit flag byte) must not be inherited from the row decoded before
 	c.Rule("class-table", "the three readers of a script class handle exactly {WitnessV0ScriptHash, StakingScriptHash, BindingScriptHash}", 3)
 	pps := fn(c, pkgUtils, "", "ParsePkScript")
@@ -175,91 +177,7 @@ func runC16(c *report.Ctx) {
 	}
 
 	// ---- (3) constructor errors examined -------------------------------------------------------
-	c.Rule("address-errors-checked", "in ParsePkScript the error of an address constructor that can fail (its input is not a full slice of a 32-byte array) reaches a nil test before any success return", 2)
-	if pps != nil {
-		n := 0
-		an.Instrs(pps, func(in ssa.Instruction) {
-			call, ok := in.(*ssa.Call)
-			if !ok || call.Call.StaticCallee() == nil {
-				return
-			}
-			callee := call.Call.StaticCallee()
-			tup, ok := call.Type().(*types.Tuple)
-			if !ok || !an.IsErrorType(tup.At(tup.Len()-1).Type()) {
-				return
-			}
-			pk := an.FuncPkg(callee)
-			if pk == nil || !(strings.HasSuffix(pk.Path(), "/massutil") || pk.Path() == pkgTxscript) {
-				return
-			}
-			n++
-			key := siteKey(pps, "err-of:"+calleeName(p, call), n)
-			// cannot fail: sole data argument is h[:] of a [32]byte
-			if strings.HasPrefix(callee.Name(), "NewAddress") && len(call.Call.Args) > 0 {
-				if sl, ok := call.Call.Args[0].(*ssa.Slice); ok && sl.Low == nil && sl.High == nil {
-					if pt, ok := sl.X.Type().Underlying().(*types.Pointer); ok {
-						if arr, ok := pt.Elem().Underlying().(*types.Array); ok && arr.Len() == 32 {
-							c.OK(key, "input is a full slice of a [32]byte array: the length check inside the constructor cannot fail", posOf(c, in))
-							return
-						}
-					}
-				}
-			}
-			// error value and the phis it flows into
-			var ev ssa.Value
-			for _, r := range *call.Referrers() {
-				if ex, ok := r.(*ssa.Extract); ok && ex.Index == tup.Len()-1 {
-					ev = ex
-				}
-			}
-			if ev == nil {
-				c.Fail(key, "the error result of "+calleeName(p, call)+" is discarded", posOf(c, in))
-				return
-			}
-			T := map[ssa.Value]bool{ev: true}
-			for changed := true; changed; {
-				changed = false
-				an.Instrs(pps, func(x ssa.Instruction) {
-					if ph, ok := x.(*ssa.Phi); ok && !T[ph] {
-						for _, e := range ph.Edges {
-							if T[e] {
-								T[ph] = true
-								changed = true
-							}
-						}
-					}
-				})
-			}
-			tested := func(b *ssa.BasicBlock) bool {
-				ifi, ok := b.Instrs[len(b.Instrs)-1].(*ssa.If)
-				if !ok {
-					return false
-				}
-				cv, _, ok := an.NilCmp(ifi.Cond)
-				return ok && T[cv]
-			}
-			s := &an.Search{P: p, Fn: pps,
-				Cut: func(x ssa.Instruction) bool {
-					// reaching a block that tests the error (or a phi of it) discharges the obligation
-					return x == x.Block().Instrs[len(x.Block().Instrs)-1] && tested(x.Block())
-				},
-				GoalReturn: func(r *ssa.Return, pred *ssa.BasicBlock) bool {
-					return p.ClassifyReturn(r, pred) != an.RetError
-				}}
-			b := in.Block()
-			idx := 0
-			for i, x := range b.Instrs {
-				if x == in {
-					idx = i + 1
-				}
-			}
-			if w := s.Run(b, idx, nil); w != nil {
-				c.Fail(key, "ParsePkScript can return success without having examined the error of "+calleeName(p, call)+": the result would carry a nil address that panics on first use", posOf(c, in), w...)
-			} else {
-				c.OK(key, "error examined before every success return", posOf(c, in))
-			}
-		})
-	}
+	ruleAddressErrorsChecked(c)
 
 	// ---- (4) second-address accessors -----------------------------------------------------------
 	c.Rule("second-address-guarded", "SecondEncodeAddress/SecondScriptAddress/SecondAddress are called only under IsStaking() or IsBinding() of the same script, or on scripts of staking/binding history records", 3)
@@ -397,4 +315,95 @@ func runC16(c *report.Ctx) {
 	ruleAPIOwnerOfStaking(c)
 	ruleMemoGuardField(c)
 	ruleBuilderErrorReturned(c)
+}
+
+// ruleAddressErrorsChecked (C16, C19): ParsePkScript looks at the error of every address constructor that can fail.
+func ruleAddressErrorsChecked(c *report.Ctx) {
+	p := c.P
+	pps := fn(c, pkgUtils, "", "ParsePkScript")
+	c.Rule("address-errors-checked", "in ParsePkScript the error of an address constructor that can fail (its input is not a full slice of a 32-byte array) reaches a nil test before any success return", 2)
+	if pps != nil {
+		n := 0
+		an.Instrs(pps, func(in ssa.Instruction) {
+			call, ok := in.(*ssa.Call)
+			if !ok || call.Call.StaticCallee() == nil {
+				return
+			}
+			callee := call.Call.StaticCallee()
+			tup, ok := call.Type().(*types.Tuple)
+			if !ok || !an.IsErrorType(tup.At(tup.Len()-1).Type()) {
+				return
+			}
+			pk := an.FuncPkg(callee)
+			if pk == nil || !(strings.HasSuffix(pk.Path(), "/massutil") || pk.Path() == pkgTxscript) {
+				return
+			}
+			n++
+			key := siteKey(pps, "err-of:"+calleeName(p, call), n)
+			// cannot fail: sole data argument is h[:] of a [32]byte
+			if strings.HasPrefix(callee.Name(), "NewAddress") && len(call.Call.Args) > 0 {
+				if sl, ok := call.Call.Args[0].(*ssa.Slice); ok && sl.Low == nil && sl.High == nil {
+					if pt, ok := sl.X.Type().Underlying().(*types.Pointer); ok {
+						if arr, ok := pt.Elem().Underlying().(*types.Array); ok && arr.Len() == 32 {
+							c.OK(key, "input is a full slice of a [32]byte array: the length check inside the constructor cannot fail", posOf(c, in))
+							return
+						}
+					}
+				}
+			}
+			// error value and the phis it flows into
+			var ev ssa.Value
+			for _, r := range *call.Referrers() {
+				if ex, ok := r.(*ssa.Extract); ok && ex.Index == tup.Len()-1 {
+					ev = ex
+				}
+			}
+			if ev == nil {
+				c.Fail(key, "the error result of "+calleeName(p, call)+" is discarded", posOf(c, in))
+				return
+			}
+			T := map[ssa.Value]bool{ev: true}
+			for changed := true; changed; {
+				changed = false
+				an.Instrs(pps, func(x ssa.Instruction) {
+					if ph, ok := x.(*ssa.Phi); ok && !T[ph] {
+						for _, e := range ph.Edges {
+							if T[e] {
+								T[ph] = true
+								changed = true
+							}
+						}
+					}
+				})
+			}
+			tested := func(b *ssa.BasicBlock) bool {
+				ifi, ok := b.Instrs[len(b.Instrs)-1].(*ssa.If)
+				if !ok {
+					return false
+				}
+				cv, _, ok := an.NilCmp(ifi.Cond)
+				return ok && T[cv]
+			}
+			s := &an.Search{P: p, Fn: pps,
+				Cut: func(x ssa.Instruction) bool {
+					// reaching a block that tests the error (or a phi of it) discharges the obligation
+					return x == x.Block().Instrs[len(x.Block().Instrs)-1] && tested(x.Block())
+				},
+				GoalReturn: func(r *ssa.Return, pred *ssa.BasicBlock) bool {
+					return p.ClassifyReturn(r, pred) != an.RetError
+				}}
+			b := in.Block()
+			idx := 0
+			for i, x := range b.Instrs {
+				if x == in {
+					idx = i + 1
+				}
+			}
+			if w := s.Run(b, idx, nil); w != nil {
+				c.Fail(key, "ParsePkScript can return success without having examined the error of "+calleeName(p, call)+": the result would carry a nil address that panics on first use", posOf(c, in), w...)
+			} else {
+				c.OK(key, "error examined before every success return", posOf(c, in))
+			}
+		})
+	}
 }
